@@ -41,37 +41,57 @@ def panic_key(events, line, payload):
     return "%s/%s/%s" % (beh, a, slug)
 
 
-def judge(ctx, trace, what):
-    """TraceNoPanic on one implementation trace; reports every panic TLC rejected."""
-    ok, matched, total, first, marks = pc.validate(ctx, "TraceNoPanic", trace)
-    events = vlib.read_ndjson(trace)
-    if not ok:
-        raise vlib.ToolError("malformed trace %s at event %d: %s" % (trace, matched + 1, json.dumps(first)[:300]))
+def judge(ctx, bundle, marks):
+    """TraceNoPanic verdict over the bundled real runs: every panic TLC rejected (self-test parts excluded)."""
+    events = bundle.events
     n = 0
     for tag, line, payload in marks:
-        if tag != "BAD":
+        label, local = bundle.part_of(line)
+        if tag != "BAD" or label.startswith("selftest"):
             continue
         n += 1
         key = panic_key(events, line, payload)
         runfile, _ = pc.save_run(ctx, events, line, "panic_run_%d" % line)
         ctx.report(key, "%s: the real behaviour panicked on event %s (peer %s) after %d steps of the run: %s" % (
-            what, payload.get("a"), events[line - 1].get("p"), payload.get("after_steps", -1), payload.get("msg")),
+            label, payload.get("a"), events[line - 1].get("p"), payload.get("after_steps", -1), payload.get("msg")),
             payload={"panic": payload, "event": pc.slim(events[line - 1])}, src_file=runfile)
-    ctx.cov["evaluations"] += total
-    return n, total
+    return n
 
 
-def drift(ctx, trace, what, module="TraceInitiator"):
-    ok, matched, total, first, marks = pc.validate(ctx, module, trace, count=False)
-    d = [(line, p) for tag, line, p in marks if tag == "DRIFT"]
+def drift_notes(ctx, bundle, module, ok, matched, total, first, marks):
+    d = [(line, p) for tag, line, p in marks if tag == "DRIFT" and not bundle.part_of(line)[0].startswith("selftest")]
     if not ok:
-        ctx.notes.append("DRIFT(%s): design-model comparison stopped at event %d: %s" % (what, matched + 1, json.dumps(first)[:200]))
+        ctx.notes.append("DRIFT(%s): design-model comparison stopped at event %d: %s" % (module, matched + 1, json.dumps(first)[:200]))
     for line, p in d[:5]:
         ctx.notes.append("DRIFT(%s): implementation step %d not reproduced by the design model (%s): %s" % (
-            what, line, module, json.dumps(p)[:200]))
+            bundle.part_of(line)[0], line, module, json.dumps(p)[:200]))
     ctx.count("design_model_steps_compared", total)
     ctx.count("design_model_drift", len(d) + (0 if ok else 1))
-    return len(d)
+    return d
+
+
+def responder_mc(ctx, name, depth, protos=None, cmds=None):
+    src = open(os.path.join(vlib.SPEC, "p2p", "MCResponder.cfg")).read()
+    src = src.replace("RMaxDepth = 4", "RMaxDepth = %d" % depth)
+    if protos:
+        src = re.sub(r"RProtos = .*", "RProtos = " + protos, src)
+    if cmds:
+        src = re.sub(r"RCmds = .*", "RCmds = " + cmds, src)
+    cfg = ctx.path(name + ".cfg")
+    open(cfg, "w").write(src)
+    offered = re.findall(r'"([\w-]+)"', re.search(r"RCmds = (.*)", src).group(1))
+    req = ["RIoConnected", "RIoDisconnected", "RIoError", "RIoRecv", "RIoSent"]
+    opt = {"hk": "RCmdHousekeeping", "ban": "RCmdBan", "disconnect-peer": "RCmdDisconnect", "provide": "RCmdProvide"}
+    req += [a for k, a in opt.items() if k in offered]
+    res = ctx.tlc_mc("p2p", "MCResponder", cfg, workers=4, required_actions=req,
+                     allow_zero=[a for k, a in opt.items() if k not in offered])
+    out, seen = [], set()
+    for m in ctx.VEC_RE.finditer(res["out"]):
+        t = json.loads(m.group(2).replace("\n", ""))
+        if t not in seen:
+            seen.add(t)
+            out.append(json.loads(t))
+    return out
 
 
 def run(ctx):
@@ -80,64 +100,40 @@ def run(ctx):
                "so a k-message Recv equals k single ones)")
     ctx.assume("peer n is PeerId 10.0.0.n:3000; payloads are canned per message kind")
 
-    # 1. exhaustive: design model, unconstrained environment, all events in all reachable states
-    slices = [("MCInitiatorC29.cfg", "C29a", {})]
-    if ctx.thorough:
-        slices = [("MCInitiatorC29.cfg", "C29a", {"MaxDepth": "7"}),
-                  ("MCInitiatorC29.cfg", "C29b", {"SliceProtos": '{"handshake", "blockfetch", "chainsync"}', "MaxDepth": "6",
-                                                  "Cmds": '{"include", "hk", "startsync", "contsync", "reqblocks", "demote"}'}),
-                  ("MCInitiatorC29.cfg", "C29c", {"SliceProtos": '{"handshake", "leiosnotify", "leiosfetch", "txsubmission"}',
-                                                  "Versions": "{13, 15}", "MaxDepth": "6",
-                                                  "Cmds": '{"include", "hk", "fetcheb", "fetchebtxs", "ban"}'})]
-    else:
-        slices.append(("MCInitiatorC29.cfg", "C29b", {"SliceProtos": '{"handshake", "blockfetch", "chainsync", "leiosnotify", "leiosfetch", "txsubmission"}',
-                                                      "Versions": "{13, 15}", "MaxDepth": "5", "Peers": "{1}", "MaxPeers": "1",
-                                                      "Cmds": '{"include", "hk", "startsync", "contsync", "reqblocks", "fetcheb", "fetchebtxs"}'}))
+    t = ctx.thorough
+    # 1. exhaustive: design models, unconstrained environment, all events in all reachable states
+    slices = [("MCInitiatorC29.cfg", "C29a", {"MaxDepth": "7" if t else "6"})]
+    if t:
+        slices += [("MCInitiatorC29.cfg", "C29b", {"SliceProtos": '{"handshake", "blockfetch", "chainsync"}', "MaxDepth": "6",
+                                                   "Cmds": '{"include", "hk", "startsync", "contsync", "reqblocks", "demote"}'}),
+                   ("MCInitiatorC29.cfg", "C29c", {"SliceProtos": '{"handshake", "leiosnotify", "leiosfetch", "txsubmission"}',
+                                                   "Versions": "{13, 15}", "MaxDepth": "6",
+                                                   "Cmds": '{"include", "hk", "fetcheb", "fetchebtxs", "ban"}'})]
     rows, model_classes = [], set()
     for base, name, ov in slices:
         scheds, classes, consts = pc.mc_slice(ctx, base, name, ov)
         model_classes |= classes["c29"]
-        find, cover = pc.select(ctx, scheds, 400 if ctx.thorough else 150)
+        find, cover = pc.select(ctx, scheds, None, prefix_free=False)
         cfg = pc.run_cfg_from_consts(consts, strict=False)
         for i, s in enumerate(find + cover):
-            rows.append({"id": "%s-%s%d" % (name, s["kind"][0], i), "cfg": cfg, "sched": s["sched"],
-                         "expect": s["c29"] if s["kind"] == "finding" else []})
+            rows.append({"id": "%s-%s%d" % (name, s["kind"][0], i), "cfg": cfg, "sched": s["sched"], "exp": s.get("exp"),
+                         "must": s["kind"] == "finding" and bool(s["c29"])})
+    ctx.cov["model_panic_classes"] = sorted(model_classes)
+    # responder: all protocols' messages + all commands (shallow), and the connection lifecycle (deep)
+    rscheds = responder_mc(ctx, "MCResponderAll", 4 if t else 3)
+    rscheds += responder_mc(ctx, "MCResponderLife", 7 if t else 6, protos='{"handshake"}', cmds='{"hk", "ban"}')
+    _, rcover = pc.select(ctx, rscheds, 6000 if t else 1500)
 
-    # responder design model: totality (all events / messages / commands in all states within the bound)
-    rcfg = ctx.path("MCResponder.cfg")
-    src = open(os.path.join(vlib.SPEC, "p2p", "MCResponder.cfg")).read()
-    open(rcfg, "w").write(src.replace("RMaxDepth = 4", "RMaxDepth = %d" % (4 if ctx.thorough else 3)))
-    rres = ctx.tlc_mc("p2p", "MCResponder", rcfg, workers=4,
-                      required_actions=["RIoConnected", "RIoDisconnected", "RIoError", "RIoRecv", "RIoSent", "RCmdHousekeeping",
-                                        "RCmdBan", "RCmdDisconnect", "RCmdProvide"])
-    rscheds, seen = [], set()
-    for m in ctx.VEC_RE.finditer(rres["out"]):
-        t = json.loads(m.group(2).replace("\n", ""))
-        if t not in seen:
-            seen.add(t)
-            rscheds.append(json.loads(t))
-    _, rcover = pc.select(ctx, rscheds, 4000 if ctx.thorough else 1200)
+    # 2. M2: TLC schedules -> real behaviours; 3. M3: seeded random runs, initiator and responder
+    trace, res, rows = pc.replay(ctx, binary, rows, "m2", sample=1500 if t else 250)
+    ctx.cov["schedules_replayed"] = len(rows)
+    ctx.cov["schedules_ending_in_a_panic_on_the_real_code"] = sum(1 for r in res if r["panicked"])
+    ctx.sample({"tlc_schedule": rows[0]["sched"][:6]})
     rin, rtrace = ctx.path("m2resp.sched.ndjson"), ctx.path("m2resp.trace.ndjson")
     pc.write_schedules(rin, [{"id": "resp-c%d" % i, "sched": s["sched"]} for i, s in enumerate(rcover)])
     ctx.run_bin(binary, ["resp-run", "--in", rin, "--out", rtrace])
-    ctx.cov["traces_validated_against_impl"] += len(rcover)
     ctx.cov["responder_schedules_replayed"] = len(rcover)
-    judge(ctx, rtrace, "TLC schedule replay (responder)")
-    drift(ctx, rtrace, "M2-responder", module="TraceResponder")
-
-    # 2. M2: TLC schedules -> real InitiatorBehavior
-    trace, res = pc.replay(ctx, binary, rows, "m2")
-    ctx.cov["traces_validated_against_impl"] += len(rows)
-    ctx.cov["schedules_replayed"] = len(rows)
-    ctx.sample({"tlc_schedule": rows[0]["sched"][:6]})
-    n_m2, _ = judge(ctx, trace, "TLC schedule replay")
-    drift(ctx, trace, "M2")
-    # (whether model and code agree on WHICH steps panic is part of the TraceInitiator comparison above)
-    ctx.cov["schedules_ending_in_a_panic_on_the_real_code"] = sum(1 for r in res if r["panicked"])
-    ctx.cov["model_panic_classes"] = sorted(model_classes)
-
-    # 3. M3: seeded random runs, initiator and responder
-    runs = 40 if ctx.thorough else 10
+    runs = 40 if t else 10
     tr_i = ctx.path("rand_init.ndjson")
     out = ctx.run_bin(binary, ["init-random", "--mode", "c29", "--seed", ctx.seed, "--runs", runs, "--events", 300,
                                "--peers", 6, "--out", tr_i])
@@ -145,46 +141,52 @@ def run(ctx):
     tr_r = ctx.path("rand_resp.ndjson")
     out = ctx.run_bin(binary, ["resp-random", "--seed", ctx.seed, "--runs", runs, "--events", 300, "--peers", 6, "--out", tr_r])
     ctx.sample({"responder_random_driver": json.loads(out)["stats"]})
-    n_i, _ = judge(ctx, tr_i, "random initiator run")
-    n_r, _ = judge(ctx, tr_r, "random responder run")
-    drift(ctx, tr_r, "M3-responder", module="TraceResponder")
-    ctx.cov["traces_validated_against_impl"] += 2 * runs
-    ctx.sample({"impl_trace_event": pc.slim(vlib.read_ndjson(tr_i)[3])})
-    # small runs compared with the design model step by step (arbitrary input included)
+    sruns = 24 if t else 8
     tr_s = ctx.path("rand_small.ndjson")
-    sruns = 24 if ctx.thorough else 8
     ctx.run_bin(binary, ["init-random", "--mode", "c29", "--seed", int(ctx.seed) + 1000, "--runs", sruns, "--events", 150,
                          "--peers", 4, "--snap", 1, "--out", tr_s])
-    judge(ctx, tr_s, "random initiator run (small)")
-    drift(ctx, tr_s, "M3-small")
-    ctx.cov["traces_validated_against_impl"] += sruns
+    ctx.cov["traces_validated_against_impl"] += len(rows) + len(rcover) + 2 * runs + sruns
+    m2, m2r = vlib.read_ndjson(trace), vlib.read_ndjson(rtrace)
+    ri, rr, rs = vlib.read_ndjson(tr_i), vlib.read_ndjson(tr_r), vlib.read_ndjson(tr_s)
+    ctx.sample({"impl_trace_event": pc.slim(ri[3])})
 
-    # 4. binding self-test: a panic event must be rejected; a malformed event must not be consumed
+    # verdict: TraceNoPanic over every real run, one TLC start; self-tests ride along as extra runs
+    A = (pc.Bundle().add("TLC schedule replay", m2).add("TLC schedule replay (responder)", m2r)
+         .add("random initiator run", ri).add("random responder run", rr).add("random initiator run (small)", rs))
+    si = next(i for i in range(30, len(rr)) if "out" in rr[i])
+    c1, s1 = pc.run_containing(rr, si, si + 5)
+    c1[s1] = {"ev": "panic", "a": c1[s1].get("ev"), "p": c1[s1].get("p", 0), "m": c1[s1].get("m"),
+              "msg": "selftest", "pre_conn": "-", "pre_hs": "-"}
+    A.add("selftest-panic", c1[:s1 + 1])
+    c2, _ = pc.run_containing(rr, si, si + 5)
+    del c2[s1]["out"]
+    A.add("selftest-malformed", c2)        # must stay last: TLC stops consuming at the malformed event
+    pa = A.write(ctx.path("all_runs.ndjson"))
+    ok, matched, total, first, marks = pc.validate(ctx, "TraceNoPanic", pa)
+    mal = A.first_line("selftest-malformed") + s1
+    if matched < mal - 1:
+        raise vlib.ToolError("malformed trace at event %d: %s" % (matched + 1, json.dumps(first)[:300]))
+    ctx.cov["evaluations"] += matched
+    judge(ctx, A, marks)
     if not ctx.violations:
-        ev = vlib.read_ndjson(tr_r)[:60]
-        idx = 30
-        bad = [dict(e) for e in ev]
-        bad[idx] = {"ev": "panic", "a": bad[idx].get("ev"), "p": bad[idx].get("p", 0), "m": bad[idx].get("m"),
-                    "msg": "selftest", "pre_conn": "-", "pre_hs": "-"}
-        p1 = ctx.path("selftest_panic.ndjson")
-        vlib.write_ndjson(p1, bad)
-        _, _, _, _, marks = pc.validate(ctx, "TraceNoPanic", p1, count=False)
-        ctx.selftest("event %d replaced by a panic event" % (idx + 1), any(t == "BAD" and l == idx + 1 for t, l, _ in marks))
-        mal = [dict(e) for e in ev]
-        del mal[idx]["out"]
-        p2 = ctx.path("selftest_malformed.ndjson")
-        vlib.write_ndjson(p2, mal)
-        ok2, m2, _, _, _ = pc.validate(ctx, "TraceNoPanic", p2, count=False)
-        ctx.selftest("event %d without outputs" % (idx + 1), (not ok2) and m2 == idx)
-        # the design-model comparison must notice a corrupted snapshot field
-        ci = next(i for i, e in enumerate(ev) if i > 20 and e.get("ev") == "recv" and e.get("peers"))
-        cor = json.loads(json.dumps(ev[:ci + 5]))
-        cor[ci]["peers"][0]["ka"] = "Server" if cor[ci]["peers"][0]["ka"] != "Server" else "Client"
-        p3 = ctx.path("selftest_snapshot.ndjson")
-        vlib.write_ndjson(p3, cor)
-        _, _, _, _, marks = pc.validate(ctx, "TraceResponder", p3, count=False)
-        ctx.selftest("keep-alive state class of a peer flipped at event %d" % (ci + 1),
-                     any(t == "DRIFT" and l == ci + 1 for t, l, _ in marks))
+        lp = A.first_line("selftest-panic") + s1
+        ctx.selftest("event replaced by a panic event", any(tg == "BAD" and l == lp for tg, l, _ in marks))
+        ctx.selftest("event without outputs is not consumed", (not ok) and matched == mal - 1)
+
+    # design-model comparisons (DRIFT only): initiator, responder (with a corrupted snapshot as self-test)
+    B = pc.Bundle().add("M2", m2).add("M3-small", rs)
+    okb, mb, tb, fb, marksb = pc.validate(ctx, "TraceInitiator", B.write(ctx.path("model_init.ndjson")), count=False)
+    drift_notes(ctx, B, "TraceInitiator", okb, mb, tb, fb, marksb)
+    C = pc.Bundle().add("M2-responder", m2r).add("M3-responder", rr)
+    ci = next(i for i, e in enumerate(rr) if i > 20 and e.get("ev") == "recv" and e.get("peers"))
+    c3, k3 = pc.run_containing(rr, ci, ci)
+    c3[k3]["peers"][0]["ka"] = "Server" if c3[k3]["peers"][0]["ka"] != "Server" else "Client"
+    C.add("selftest-snapshot", c3)
+    okc, mc, tc, fc, marksc = pc.validate(ctx, "TraceResponder", C.write(ctx.path("model_resp.ndjson")), count=False)
+    drift_notes(ctx, C, "TraceResponder", okc, mc, tc, fc, marksc)
+    if not ctx.violations:
+        l3 = C.first_line("selftest-snapshot") + k3
+        ctx.selftest("keep-alive state class of a responder peer flipped", any(tg == "DRIFT" and l == l3 for tg, l, _ in marksc))
 
     return ctx.finish(
         rule="MC: Initiator.tla with an unconstrained environment (2 peers, every event and every message kind of the "
